@@ -40,6 +40,7 @@ def gen_decl(rnd, k, opts=None):
     # a second expansion whose struct is a FIELD of the first one (NewGraph's second pass has to put it back when it is
     # listed first); its own field G0 is what consumers ask for
     nested = structnode is not None and opts.get("nested", rnd.random() < 0.3)
+    struct_bind = structnode is not None and structnode != 0 and rnd.random() < 0.3
     nargs = rnd.choice([0, 0, 1, 2, 3])
     # multi-value: node i also returns X_i, consumed by an earlier node (or by nobody)
     second = {}
@@ -86,6 +87,8 @@ def gen_decl(rnd, k, opts=None):
             out = ["%sF%d" % (P, f) for f in ch]
             if rnd.random() < 0.2:
                 out.append("*%sSt" % P)
+            if struct_bind and rnd.random() < 0.6:
+                out.append("%sIFs" % P)
             if nested and rnd.random() < 0.6:
                 out.append("%sG0" % P)
                 if rnd.random() < 0.3:
@@ -144,6 +147,10 @@ def gen_decl(rnd, k, opts=None):
                   fallible=False, fn=None, node=None, wrap=rnd.choice(["plain", "plain", "async"]), **{"async": False})
         if sp["wrap"] == "async":
             sp["async"] = True
+        if struct_bind:
+            # kessoku.Bind[IFs](kessoku.Struct[*St]()): the interface is supplied by the struct's source
+            sp["bind"] = ["%sIFs" % P]
+            sp["nest"] = rnd.choice(["async_outer", "bind_outer"])
         flat.insert(rnd.randrange(len(flat) + 1), sp)
         if nested:
             sp["fields"] = sorted(sp["fields"] + [["FldN", "*%sSt2" % P]])
@@ -156,7 +163,7 @@ def gen_decl(rnd, k, opts=None):
         ret = "%sA9" % P        # nobody supplies it: the injector just returns its argument (fix F5)
     layout = make_layout(rnd, len(flat), P)
     d = dict(name="Init" + P, prefix=P, ret=ret, provs=flat, layout=layout, kind="valid",
-             meta=dict(n=n, nargs=nargs, nf=nf, structnode=structnode, nested=bool(nested), second=sorted(second), binds=sorted(binds), values=sorted(values)))
+             meta=dict(n=n, nargs=nargs, nf=nf, structnode=structnode, nested=bool(nested), struct_bind=bool(struct_bind), second=sorted(second), binds=sorted(binds), values=sorted(values)))
     return d
 
 
@@ -601,6 +608,10 @@ def struct_expansion(d, m):
                 continue
             return None, ("orphan", p["type"])
         deferred = 0
+        for iface in p.get("bind", []):
+            if iface in m and m[iface] != m[p["type"]]:
+                return None, ("dup", iface)
+            m[iface] = m[p["type"]]
         for (fname, ftype) in p["fields"]:
             if ftype in m:
                 return None, ("dup", ftype)
@@ -820,6 +831,8 @@ def go_type_decls(d):
         if p["kind"] == "struct":
             for f in p["fields"]:
                 note(f[1])
+            for iface in p.get("bind", []):
+                note(iface)
     note(d["ret"])
     out = []
     if any(p.get("errtype", "error") != "error" for p in d["provs"]):
@@ -847,8 +860,8 @@ def go_type_decls(d):
                 out.append("func (x %s) Term() string { return x.S }\n" % base)
     # interface marker methods on the bound concrete types
     for p in d["provs"]:
-        for iface in p.get("bind", []) if p["kind"] != "struct" else []:
-            conc = p["provides"][0][0].lstrip("*")
+        for iface in p.get("bind", []):
+            conc = (p["type"] if p["kind"] == "struct" else p["provides"][0][0]).lstrip("*")
             out.append("func (x *%s) Is%s() {}\n" % (conc, iface))
     return out
 
@@ -943,7 +956,11 @@ def render_provider(d, i, p):
 def provider_expr(d, p):
     if p["kind"] == "struct":
         e = "kessoku.Struct[%s]()" % p["type"]
-        if p.get("wrap") == "async":
+        if p.get("wrap") == "async" and p.get("nest") == "bind_outer":
+            e = "kessoku.Async(%s)" % e
+        for iface in p.get("bind", []):
+            e = "kessoku.Bind[%s](%s)" % (iface, e)
+        if p.get("wrap") == "async" and p.get("nest") != "bind_outer":
             e = "kessoku.Async(%s)" % e
         return e
     if p["kind"] == "value":
